@@ -95,6 +95,7 @@ class Acc:
         self.ties_checked = []
         self.oracle_runs = collections.Counter()
         self._seen_viol = set()
+        self.budget_is_violation = False      # only the termination property (C06) treats an exceeded time budget as a failure
 
     # ---- correspondence ----
     def corr(self, cases, label, project=None, trivial=None):
@@ -136,6 +137,9 @@ class Acc:
         try:
             msg = I.with_budget(lambda: ORACLES[kind](src, **args))
         except I.Budget:
+            if not self.budget_is_violation:
+                self.skipped['oracle ' + kind + ': time budget (huge count over zero-width elements)'] += 1
+                return None
             msg = 'does not terminate within %.1fs' % I.BUDGET_S
         except R.Unsupported:
             self.skipped['oracle ' + kind + ': unsupported'] += 1
@@ -199,6 +203,26 @@ def generic_replay(payload):
 
 
 # ---- value helpers shared by oracles ----
+
+def veq(a, b):
+    """deep equality as the properties mean it: Python == with NaN equal to NaN, lazies forced, private keys ignored"""
+    if callable(a) and not isinstance(a, (dict, list)):
+        a = a()
+    if callable(b) and not isinstance(b, (dict, list)):
+        b = b()
+    if isinstance(a, float) and isinstance(b, float):
+        return a == b or (a != a and b != b)
+    if isinstance(a, dict) and isinstance(b, dict):
+        ka = [k for k in a.keys() if not (isinstance(k, str) and k.startswith('_'))]
+        kb = [k for k in b.keys() if not (isinstance(k, str) and k.startswith('_'))]
+        return set(ka) == set(kb) and all(veq(a[k], b[k]) for k in ka)
+    if isinstance(a, (list, tuple)) and isinstance(b, (list, tuple)):
+        return len(a) == len(b) and all(veq(a[i], b[i]) for i in range(len(a)))
+    try:
+        return bool(a == b)
+    except Exception:
+        return False
+
 
 def peq(a, b):
     """Python == as the property means it, with NaN-free floats"""
